@@ -90,6 +90,7 @@ func runC05(c *Ctx, r *Report) {
 	r.Rule("C05.R4", "rewriter/visitor agreement: type assertions inside ast.Modify on results of the callback use the two-value form (the register rewriter substitutes *Register for *Identifier)")
 	r.Rule("C05.R6", "no use after release: a function that acquires and releases a register on a long-lived environment does not return an object that may still be that register (directly or inside a ReturnValue): the slot is reused by the next loop")
 	r.Rule("C05.R7", "no stale alias: in a function that writes a register slot (through (*Register).Ptr()), no loop-carried value may be an unsanitised evaluation result (a *Register kept across iterations changes when the slot is rewritten)")
+	r.Rule("C05.R8", "release only what was acquired: the Register passed to ReleaseRegister comes from MakeRegister, or from a wrapper that acquires on every return path, or from a wrapper whose only non-acquiring exit is its HasRegisters() fallback and whose call is guarded by HasRegisters() on the same environment")
 	r.Rule("C05.R5", "fallback instead of failure: when setupRegister reports !ok the caller takes the variable path instead of returning an error")
 
 	makeReg := c.Fn("object", "Environment.MakeRegister")
@@ -219,6 +220,174 @@ func runC05(c *Ctx, r *Report) {
 		}
 	}
 	r.Floor("C05.R2", 1)
+
+	// R8 release only what was acquired
+	{
+		// wrapper summary: every path to a return acquires, or leaves through the "no register available" edge
+		type wsum struct{ must, guarded bool }
+		wrapperSum := func(w *ssa.Function, envIdx int) wsum {
+			isMake := func(in ssa.Instruction) bool { return isCallTo(in, makeReg) }
+			if mustPassFromEntry(w, isMake, isReturn) == nil {
+				return wsum{must: true}
+			}
+			if envIdx >= len(w.Params) {
+				return wsum{}
+			}
+			noReg := map[*ssa.BasicBlock]bool{}
+			for _, b := range w.Blocks {
+				ifi, ok := b.Instrs[len(b.Instrs)-1].(*ssa.If)
+				if !ok {
+					continue
+				}
+				cond, edge := ifi.Cond, 1
+				if u, ok := cond.(*ssa.UnOp); ok && u.Op == token.NOT {
+					cond, edge = u.X, 0
+				}
+				if cl, ok := cond.(*ssa.Call); ok && isCallTo(cl, hasRegs) && cl.Common().Args[0] == ssa.Value(w.Params[envIdx]) && len(b.Succs[edge].Preds) == 1 {
+					noReg[b.Succs[edge]] = true
+				}
+			}
+			sat := func(in ssa.Instruction) bool {
+				return isMake(in) || (noReg[in.Block()] && in == in.Block().Instrs[0])
+			}
+			return wsum{guarded: mustPassFromEntry(w, sat, isReturn) == nil}
+		}
+		var origin func(v ssa.Value, use ssa.Instruction, seen map[ssa.Value]bool) string
+		originCall := func(call *ssa.Call, use ssa.Instruction) string {
+			callee := calleeObj(call)
+			if callee == makeReg {
+				return ""
+			}
+			idx, isW := acquirers[callee]
+			if !isW {
+				return "the register comes from " + nameOfCallee(call) + ", which is not an acquirer"
+			}
+			sum := wrapperSum(c.SSAFn(callee), idx)
+			if sum.must {
+				return ""
+			}
+			if !sum.guarded {
+				return callee.Name() + " can return without having acquired a register (on a path other than its HasRegisters() fallback)"
+			}
+			arg := call.Common().Args[idx]
+			if dominatedByTrue(call, func(v ssa.Value) bool {
+				cl, isCall := v.(*ssa.Call)
+				return isCall && isCallTo(cl, hasRegs) && sameValue(cl.Common().Args[0], arg)
+			}) {
+				return ""
+			}
+			return callee.Name() + " returns a zero Register when no register is available and this call is not guarded by HasRegisters() on the same environment: the release then hits the 'Releasing non last register' panic (or frees a register of an enclosing loop)"
+		}
+		origin = func(v ssa.Value, use ssa.Instruction, seen map[ssa.Value]bool) string {
+			if seen[v] {
+				return ""
+			}
+			seen[v] = true
+			switch x := v.(type) {
+			case *ssa.Call:
+				return originCall(x, use)
+			case *ssa.Extract:
+				if call, ok := x.Tuple.(*ssa.Call); ok && x.Index == 0 {
+					return originCall(call, use)
+				}
+			case *ssa.Phi:
+				for _, e := range x.Edges {
+					if why := origin(e, use, seen); why != "" {
+						return why
+					}
+				}
+				return ""
+			case *ssa.Const:
+				return "the zero Register may be released"
+			case *ssa.UnOp:
+				if al, ok := x.X.(*ssa.Alloc); ok && x.Op == token.MUL {
+					dominated := false
+					for _, ref := range *al.Referrers() {
+						st, ok := ref.(*ssa.Store)
+						if !ok || st.Addr != ssa.Value(al) {
+							continue
+						}
+						if why := origin(st.Val, use, seen); why != "" {
+							return why
+						}
+						if instrDominates(st, use) {
+							dominated = true
+						}
+					}
+					if !dominated {
+						return "the register variable may still hold its zero value when released"
+					}
+					return ""
+				}
+			}
+			return "unrecognised origin of the released register: " + v.String()
+		}
+		n := 0
+		for _, fn := range c.ModuleSSAFuncs() {
+			eachInstr(fn, func(in ssa.Instruction) {
+				var arg ssa.Value
+				use := in
+				switch x := in.(type) {
+				case *ssa.Call:
+					if isCallTo(x, release) {
+						arg = x.Common().Args[1]
+					}
+				case *ssa.Defer:
+					if isCallTo(x, release) {
+						arg = x.Call.Args[1]
+					}
+				}
+				if arg == nil {
+					return
+				}
+				// inside a deferred closure: map the captured variable to the parent's variable
+				if ld, ok := arg.(*ssa.UnOp); ok && ld.Op == token.MUL {
+					if fv, ok := ld.X.(*ssa.FreeVar); ok && fn.Parent() != nil {
+						for _, pin := range allInstrs(fn.Parent()) {
+							d, ok := pin.(*ssa.Defer)
+							if !ok {
+								continue
+							}
+							if mc, ok := d.Call.Value.(*ssa.MakeClosure); ok && mc.Fn == ssa.Value(fn) {
+								for i, f := range fn.FreeVars {
+									if f == fv {
+										if al, ok := mc.Bindings[i].(*ssa.Alloc); ok {
+											// the variable as it is when the defer is set up
+											n++
+											why := ""
+											dominated := false
+											for _, ref := range *al.Referrers() {
+												if st, ok := ref.(*ssa.Store); ok && st.Addr == ssa.Value(al) {
+													if w := origin(st.Val, d, map[ssa.Value]bool{}); w != "" {
+														why = w
+													}
+													if instrDominates(st, d) {
+														dominated = true
+													}
+												}
+											}
+											if why == "" && !dominated {
+												why = "the register variable may still hold its zero value when the deferred release runs"
+											}
+											r.Check(why == "", "C05.R8", ssaFuncName(fn.Parent()), "deferred release (closure) of an acquired register", c.Pos(d.Pos()), why)
+											return
+										}
+									}
+								}
+							}
+						}
+					}
+				}
+				n++
+				why := origin(arg, use, map[ssa.Value]bool{})
+				r.Check(why == "", "C05.R8", ssaFuncName(fn), "release of an acquired register", c.Pos(in.Pos()), why)
+			})
+		}
+		if n == 0 {
+			r.Undecided("C05.R8: no ReleaseRegister call found")
+		}
+		r.Floor("C05.R8", 1)
+	}
 
 	// R3 escape
 	t := NewTaint(c, c.registerSpec())
@@ -518,8 +687,38 @@ func sameValue(a, b ssa.Value) bool {
 	if ok1 && ok2 && la.Op == token.MUL && lb.Op == token.MUL {
 		fa, ok1 := la.X.(*ssa.FieldAddr)
 		fb, ok2 := lb.X.(*ssa.FieldAddr)
-		if ok1 && ok2 && fa.Field == fb.Field && fa.X == fb.X {
+		if ok1 && ok2 && fa.Field == fb.Field && sameValue(fa.X, fb.X) {
 			return true
+		}
+		// loads of a variable that is written once (a parameter spilled because a closure captures it)
+		if aa, ok := la.X.(*ssa.Alloc); ok && la.X == lb.X {
+			stores := 0
+			for _, ref := range *aa.Referrers() {
+				switch x := ref.(type) {
+				case *ssa.Store:
+					if x.Addr == ssa.Value(aa) {
+						stores++
+					}
+				case *ssa.UnOp, *ssa.DebugRef:
+				case *ssa.MakeClosure:
+					// captured: the closure must not write it
+					if f, ok := x.Fn.(*ssa.Function); ok {
+						for i, b := range x.Bindings {
+							if b != ssa.Value(aa) {
+								continue
+							}
+							for _, fr := range *f.FreeVars[i].Referrers() {
+								if st, ok := fr.(*ssa.Store); ok && st.Addr == ssa.Value(f.FreeVars[i]) {
+									stores += 2
+								}
+							}
+						}
+					}
+				default:
+					stores += 2 // address escapes some other way
+				}
+			}
+			return stores == 1
 		}
 	}
 	return false
